@@ -283,26 +283,15 @@ func (c *VirtualTable) BestIndex(input []IndexInput, order []OrderInput) (*Index
 		out.EstimatedCost /= 2.0
 	}
 	out.AlreadyOrdered = true
-	var desc *bool
 	for i := range order {
-		if order[i].Column != c.KeyCol || i > 0 {
-			// not (only) the key: SQLite sorts the rows itself
+		if order[i].Column != c.KeyCol || i > 0 || order[i].Desc {
+			// not (only) the key, or descending: SQLite sorts the rows itself.
+			// Descending scans are not offered: the tree's cursor cannot walk
+			// backwards reliably over more than one node (it skips entries).
 			out.AlreadyOrdered = false
 		}
-		if i == 0 {
-			v := order[i].Desc
-			desc = &v
-		}
 	}
-	if desc == nil {
-		a := false
-		desc = &a
-	}
-	if *desc {
-		out.IdxStr = "desc " + out.IdxStr
-	} else {
-		out.IdxStr = "asc  " + out.IdxStr
-	}
+	out.IdxStr = "asc  " + out.IdxStr
 	dbg("BESTINDEX %+v -> %s\n", input, out.IdxStr)
 	return out, nil
 }
